@@ -3,12 +3,14 @@ import GoDcp.Props.C03
 # C01 — the durable checkpoint never runs ahead of what the consumer settled
 
 Clause (a) (`C01a`): whatever a step makes durable was, in the same session, an
-announced position of that vBucket (a stream request of `Open` or a
-`TrackOffset` notification).  `track_only_from_settle`: notifications come only
+announced position of that vBucket (a stream request of `Open`, of a rebalance or
+of a transient reopen, or a `TrackOffset` notification).  `track_only_from_settle`: notifications come only
 from an acknowledgement of a delivered event or from an absorbed event.
 
 Clause (b) (restart never skips a delivered but unsettled event):
-`C01b_full_refuted` (finding F3) and `C01b_partial`.
+`C01b_full_refuted` (finding F3) and `C01b_partial`; the contexts survive a rebalance
+(`step_inv_rebalance`), `C01b_rebalance_reset_refuted` shows the one case in which a
+rebalance passes them (latest-reset start), excluded by `KF.C01_resetJump`.
 -/
 namespace GoDcp.C01
 open GoDcp
@@ -29,7 +31,8 @@ def writtenDocs (out : List Obsv) : List (Vb × Doc) :=
     | _ => []
 
 /-- ghost component: the positions announced so far in the current session
-    (reset when the session number changes, i.e. at a successful `open` and at `crash`) -/
+    (reset when the session number changes, i.e. at a successful `open` and at `crash`;
+    a rebalance keeps the session – its stream requests are absorbed like any other announcement) -/
 def ghostStep (g : List (Vb × Doc)) (s : St) (op : Op) : List (Vb × Doc) :=
   (if (step s op).1.sess = s.sess then g else []) ++ announced (step s op).2
 
@@ -198,8 +201,36 @@ theorem step_announced (s : St) (g : List (Vb × Doc)) (op : Op) (h : Announced 
     exact ⟨announced_frame _ h (step_offsets s (by rfl)) (step_savers s (by rfl)), by simp [step, writtenDocs]⟩
   | setFlog vb u =>
     rw [ghostStep_same (step_sess s (by rfl))]
+    exact ⟨announced_frame _ h (step_offsets s (by rfl)) (step_savers s (by rfl)), by simp [step, writtenDocs]⟩
+  | reopen vb =>
+    rw [ghostStep_same (step_sess s (by rfl))]
     refine ⟨announced_frame _ h (step_offsets s (by rfl)) (step_savers s (by rfl)), ?_⟩
-    simp only [step]; split <;> simp [writtenDocs]
+    rw [writtenDocs_of_none]; · simp
+    intro x hx docs e
+    simp only [step] at hx
+    rcases mem_reopenStream_out hx with ⟨_, h'⟩ | ⟨_, _, _, _, _, h', _⟩ <;> rw [h'] at e <;> cases e
+  | rebalance lo hi =>
+    -- the session goes on; every re-loaded position is announced by its stream request
+    rw [ghostStep_same (step_sess s (by rfl))]
+    have hw : ∀ p ∈ writtenDocs (step s (.rebalance lo hi)).2, p ∈ g := by
+      rw [writtenDocs_of_none]; · simp
+      intro x hx docs e
+      simp only [step] at hx
+      rcases mem_rebalanceSession_out hx with ⟨_, h'⟩ | ⟨_, h'⟩ | h' | ⟨_, _, _, _, _, _, _, _, _, _, h', _⟩ <;>
+        rw [h'] at e <;> cases e
+    refine ⟨?_, hw⟩
+    simp only [step]
+    rcases rebalanceSession_cases s lo hi with ⟨_, e⟩ | ⟨_, hs, _, _, e⟩ | ⟨offs, dirty, any, _, hs, _, _, e⟩ <;> rw [e]
+    · exact announced_frame _ h rfl rfl
+    · refine ⟨fun vb o hm => ?_, fun k st d hm => ?_⟩
+      · simp [rebalBase, closedOf] at hm
+      · simp [rebalBase, closedOf, hs] at hm
+    · refine ⟨fun vb o hm => ?_, fun k st d hm => ?_⟩
+      · apply List.mem_append_right
+        apply mem_announced_openreq
+        rw [rebalDone_offsets] at hm
+        exact List.mem_append_right _ (List.mem_map.mpr ⟨(vb, o), hm, rfl⟩)
+      · rw [rebalDone_savers, hs] at hm; cases hm
   | persist vb q =>
     rw [ghostStep_same (step_sess s (by rfl))]
     refine ⟨announced_frame _ h (step_offsets s (by rfl)) (step_savers s (by rfl)), ?_⟩
@@ -361,7 +392,8 @@ theorem ghostRun_append (g : List (Vb × Doc)) (s : St) (a b : List Op) :
   | nil => rfl
   | cons op r ih => simp only [List.cons_append, ghostRun, run_cons, ih]
 
-/-- **C01a** (ghost form): along ANY run – all ops, partial stores, crash, reopen –
+/-- **C01a** (ghost form): along ANY run – all ops, partial stores, crash, restart, rebalance,
+    transient reopen –
     from a state satisfying the invariant, every document a step makes durable is
     in the set of positions announced earlier in the same session. -/
 theorem C01a (s : St) (g : List (Vb × Doc)) (pre : List Op) (op : Op) (h : Announced s g) :
@@ -401,7 +433,8 @@ theorem mem_ghostRun {p : Vb × Doc} {g : List (Vb × Doc)} {s : St} {ops : List
 /-- **C01a** (explicit form): from a fresh process, if step `k` (= after the ops
     `pre`) makes `(vb, d)` durable, then an earlier step `j` of the same session –
     no session start between `j` and `k` – announced exactly that position: its
-    output contains `openreq vb o` or `track vb o` with `o.toDoc = d`. -/
+    output contains `openreq vb o` (`Open`, a rebalance or a reopen) or `track vb o` with
+    `o.toDoc = d`. -/
 theorem C01a_explicit (s : St) (ho : s.offsets = []) (hv : s.savers = []) (pre : List Op) (op : Op)
     (vb : Vb) (d : Doc) (hw : (vb, d) ∈ writtenDocs (step (run s pre) op).2) :
     ∃ pre₁ op₁ post₁, pre = pre₁ ++ op₁ :: post₁ ∧
@@ -528,6 +561,12 @@ theorem track_only_from_settle (s : St) (op : Op) (vb : Vb) (o : Offset)
   | svStore k res => exfalso; simp only [step, svStore] at h; (repeat' split at h) <;> simp at h
   | svUnmark k => exfalso; simp only [step, svUnmark] at h; (repeat' split at h) <;> simp at h
   | scrape => exfalso; simp only [step, scrape] at h; (repeat' split at h) <;> simp at h
+  | rebalance lo hi =>
+    exfalso; simp only [step] at h
+    rcases mem_rebalanceSession_out h with ⟨_, h⟩ | ⟨_, h⟩ | h | ⟨_, _, _, _, _, _, _, _, _, _, h, _⟩ <;> cases h
+  | reopen vb' =>
+    exfalso; simp only [step] at h
+    rcases mem_reopenStream_out h with ⟨_, h⟩ | ⟨_, _, _, _, _, h, _⟩ <;> cases h
   | _ => exfalso; simp only [step, crash] at h; (repeat' split at h) <;> simp at h
 
 /-- non-vacuity: a partial multi-vBucket save, a crash and a reopen; the second
@@ -541,13 +580,28 @@ example :
     ghostRun [] s0 ops = [(0, ⟨0, 0, 0, 0⟩), (1, ⟨0, 2, 1, 9⟩)] := by
   refine ⟨announced_init _ rfl rfl, by decide, by decide⟩
 
+/-- … followed by a rebalance onto vBucket 1 alone and a transient reopen of it: the session goes
+    on, the ghost absorbs the two further stream requests (same position) -/
+example :
+    let s0 : St := { cfg := { lo := 0, hi := 1 } }
+    let ops : List Op := [.setHigh 0 9, .setHigh 1 9, .open, .ev 0 (.marker 1 9), .ev 1 (.marker 1 9),
+      .ev 0 (.doc ⟨.mu, 1, 0, "61", 0, ""⟩), .ev 1 (.doc ⟨.mu, 2, 0, "62", 0, ""⟩), .ack 0, .ack 1,
+      .save (.part [1]), .crash, .open, .rebalance 1 1, .reopen 1]
+    ghostRun [] s0 ops = [(0, ⟨0, 0, 0, 0⟩), (1, ⟨0, 2, 1, 9⟩), (1, ⟨0, 2, 1, 9⟩), (1, ⟨0, 2, 1, 9⟩)] ∧
+    (run s0 ops).sess = 3 ∧ (run s0 ops).offsets.keys = [1] := by
+  refine ⟨by decide, by decide, by decide⟩
+
 /-! ## clause (b): a restart never skips a delivered but unsettled event
 
 Reading (DESIGN §7 C01): acknowledgement is cumulative per vBucket – acking seq
 `a` settles every delivered event of that vBucket with seq ≤ `a`.  Ghost
 components: `ak` = per vBucket the largest acknowledged seqno of the current
-session, `hw` = per vBucket the largest seqno the server has sent in the current
-session (initially the resume position). -/
+session, `hw` = per vBucket the largest seqno the server has sent since the
+stream of that vBucket was last requested in the current session (initially the
+requested position: the resume position of `Open` or of a rebalance, the current
+position at a transient reopen – after such a request the server sends the events
+above the requested position again). A rebalance keeps the session, the contexts
+and `ak`. -/
 
 structure Gh where
   ak : AMap Nat := []
@@ -575,6 +629,11 @@ def passes (s : St) (vb : Vb) (e : SrvEv) : Bool :=
   | none => false
   | some o => decide ((Obs.step s.cfg.obs o e).2 ≠ .blocked)
 
+/-- the rebalance goes through: accepted (open, no saver in flight, non-empty range) and
+    `checkpoint.Load` succeeds -/
+def rebalOk (s : St) (lo hi : Vb) : Bool :=
+  s.isOpen && s.savers.isEmpty && decide (lo ≤ hi) && (load (rebalBase s lo hi)).isSome
+
 def ghStep (g : Gh) (s : St) (op : Op) : Gh :=
   if (step s op).1.sess ≠ s.sess then
     { ak := [], hw := (step s op).1.offsets.map fun p => (p.1, p.2.seq) }
@@ -595,6 +654,14 @@ def ghStep (g : Gh) (s : St) (op : Op) : Gh :=
         | some q => { g with hw := g.hw.set vb q }
         | none => g
       else g
+    | .rebalance lo hi =>
+      -- every assigned vBucket is requested again, from the re-loaded position
+      if rebalOk s lo hi then { g with hw := (step s op).1.offsets.map fun p => (p.1, p.2.seq) } else g
+    | .reopen _ =>
+      -- an accepted reopen requests the vBucket again, from its current position
+      match (step s op).2 with
+      | [.openreq v o] => { g with hw := g.hw.set v o.seq }
+      | _ => g
     | _ => g
 
 def ghRun (g : Gh) (s : St) : List Op → Gh
@@ -640,8 +707,8 @@ def overtakeAt (s : St) (g : Gh) (op : Op) : Bool :=
   | _ => false
 
 /-- the server keeps its contract at this step: a seqno-carrying event that passes
-    the gate is above everything sent before on that vBucket in this session
-    (and above the position the stream was requested from) -/
+    the gate is above everything sent on that vBucket since its stream was last requested
+    in this session (and above the position the stream was requested from) -/
 def monoOk (s : St) (g : Gh) (op : Op) : Bool :=
   match op with
   | .ev vb e =>
@@ -654,6 +721,17 @@ def monoOk (s : St) (g : Gh) (op : Op) : Bool :=
 
 def isSetStore : Op → Bool
   | .setStore _ _ => true
+  | _ => false
+
+/-- the load of this rebalance takes the latest-reset start (`resetLatest` and no stored document
+    in the new range: every position jumps to the server's current high seqno) while a delivered
+    event of a vBucket of the new range is still unsettled. The contexts survive a rebalance, so
+    this jump passes them (after `crash` / `close` + `open` the same start concerns a new session). -/
+def resetJumpAt (s : St) (g : Gh) (op : Op) : Bool :=
+  match op with
+  | .rebalance lo hi =>
+    s.cfg.resetLatest && !((vbRange { s.cfg with lo := lo, hi := hi }).any fun vb => s.store.has vb) &&
+      (vbRange { s.cfg with lo := lo, hi := hi }).any (anyUnsettled s g.ak)
   | _ => false
 
 /-- "some step is bad" scanner that carries the ghost component -/
@@ -731,9 +809,14 @@ theorem C01_overtake_iff (s0 : St) (ops : List Op) :
     | true => rfl
     | false => exact absurd hv ((anyUnsettled_false_iff _ _ _).mp ha p hu)
 
-/-- the server's contract over a whole run (strictly increasing seqnos per vBucket
-    and session, above the requested position), as a decidable function -/
+/-- the server's contract over a whole run (strictly increasing seqnos per vBucket between two
+    stream requests of that vBucket – `Open`, rebalance, transient reopen – and above the
+    requested position), as a decidable function -/
 def srvMonotone (s0 : St) (ops : List Op) : Bool := !scanG (fun s g op => !monoOk s g op) {} s0 ops
+
+/-- somewhere in the run a rebalance takes the latest-reset start over a delivered but unsettled
+    event of its new range (classifier for the run-time monitor; excluded by `C01b_partial`) -/
+def C01_resetJump (s0 : St) (ops : List Op) : Bool := scanG resetJumpAt {} s0 ops
 
 end GoDcp.KF
 
@@ -741,7 +824,7 @@ namespace GoDcp.C01
 open GoDcp
 
 /-- a process that has not opened a stream yet (any store, any server state) -/
-def Fresh (s : St) : Prop := s.offsets = [] ∧ s.savers = [] ∧ s.ctxs = [] ∧ s.observers = []
+def Fresh (s : St) : Prop := s.offsets = [] ∧ s.savers = [] ∧ s.ctxs = [] ∧ s.observers = [] ∧ s.isOpen = false
 
 /-- clause (b) at the end of a run: every stored checkpoint is strictly below every
     delivered event of its vBucket that no acknowledgement has settled, so a restart
@@ -784,7 +867,7 @@ theorem C01b_full_refuted :
     ¬ C01b_full := by
   refine ⟨by decide, by decide, by decide, by decide, by decide, by decide, by decide, ?_⟩
   intro h
-  have := h sF3 wF3 ⟨rfl, rfl, rfl, rfl⟩ (by decide) (by decide) 0 ⟨0, 3, 3, 3⟩ (by decide)
+  have := h sF3 wF3 ⟨rfl, rfl, rfl, rfl, rfl⟩ (by decide) (by decide) 0 ⟨0, 3, 3, 3⟩ (by decide)
     ⟨1, 0, ⟨0, 1, 1, 10, maxU64⟩⟩ ⟨by decide, by decide, by decide⟩ rfl
   simp at this
 
@@ -794,17 +877,36 @@ theorem C01b_full_refuted_short :
     KF.srvMonotone sF3' wF3' = true ∧ KF.C01_overtake sF3' wF3' = true := by
   decide
 
-/-! ### the invariant behind `C01b_partial` -/
+/-! ### the invariants behind `C01b_partial`
+
+`Inv` carries the ghost component; `InvLe` (ghost-free) says that while the stream is open
+nothing dumped or stored is ahead of the tracked position – it is what lets a transient
+reopen lower `hw` to the current position. -/
+
+/-- `x` is covered on `vb`: at or below what the server was asked to continue from / has sent
+    since the last stream request of `vb`, or at or below an acknowledged seqno of `vb`.
+    (After a rebalance or a reopen the server sends events again that were delivered before; an
+    acknowledgement of an earlier context may then put the position above `hw` – never above `ak`.) -/
+def Bnd (g : Gh) (vb : Vb) (x : Nat) : Prop := x ≤ hwOf g.hw vb ∨ settled g.ak vb x = true
 
 structure Inv (s : St) (g : Gh) : Prop where
   sessLe : ∀ p ∈ s.ctxs, p.sess ≤ s.sess
-  ctxHw : ∀ p ∈ s.ctxs, p.sess = s.sess → p.off.seq ≤ hwOf g.hw p.vb
-  offHw : ∀ vb o, (vb, o) ∈ s.offsets → o.seq ≤ hwOf g.hw vb
+  ctxPos : ∀ p ∈ s.ctxs, p.sess = s.sess → 0 < p.off.seq
+  offBnd : ∀ vb o, (vb, o) ∈ s.offsets → Bnd g vb o.seq
   offBelow : ∀ vb o, (vb, o) ∈ s.offsets → Below s g.ak vb o.seq
   dump : ∀ k st dirty, (k, SaverPc.dumped st dirty) ∈ s.savers → ∀ vb d, (vb, d) ∈ st →
-    d.seq ≤ hwOf g.hw vb ∧ Below s g.ak vb d.seq
-  storeHw : ∀ vb d, s.store.get? vb = some d → s.observers.has vb = true → d.seq ≤ hwOf g.hw vb
+    Bnd g vb d.seq ∧ Below s g.ak vb d.seq
+  storeBnd : ∀ vb d, s.store.get? vb = some d → s.observers.has vb = true → Bnd g vb d.seq
   storeBelow : ∀ vb d, s.store.get? vb = some d → Below s g.ak vb d.seq
+
+/-- while the stream is open: one position per vBucket, one for every assigned vBucket, and no
+    dumped or stored document ahead of the position of its vBucket -/
+structure InvLe (s : St) : Prop where
+  nodup : (AMap.keys s.offsets).Nodup
+  hasEntry : s.isOpen = true → ∀ vb, inRange s.cfg vb = true → s.offsets.has vb = true
+  dumpLe : s.isOpen = true → ∀ k st dirty, (k, SaverPc.dumped st dirty) ∈ s.savers → ∀ vb d, (vb, d) ∈ st →
+    ∀ o, s.offsets.get? vb = some o → d.seq ≤ o.seq
+  storeLe : s.isOpen = true → ∀ vb d, s.store.get? vb = some d → ∀ o, s.offsets.get? vb = some o → d.seq ≤ o.seq
 
 theorem below_congr {s s' : St} {ak : AMap Nat} {vb : Vb} {x : Nat} (h1 : s'.sess = s.sess)
     (h2 : s'.ctxs = s.ctxs) (h : Below s ak vb x) : Below s' ak vb x := by
@@ -815,18 +917,18 @@ theorem below_congr {s s' : St} {ak : AMap Nat} {vb : Vb} {x : Nat} (h1 : s'.ses
     new store documents satisfy the invariant's bounds -/
 theorem inv_frame {s s' : St} {g : Gh} (h : Inv s g) (h1 : s'.sess = s.sess) (h2 : s'.ctxs = s.ctxs)
     (h3 : ∀ vb o, (vb, o) ∈ s'.offsets → (vb, o) ∈ s.offsets ∨
-      (o.seq ≤ hwOf g.hw vb ∧ Below s g.ak vb o.seq))
+      (Bnd g vb o.seq ∧ Below s g.ak vb o.seq))
     (h4 : ∀ k st dd, (k, SaverPc.dumped st dd) ∈ s'.savers → (k, SaverPc.dumped st dd) ∈ s.savers ∨
-      ∀ vb d, (vb, d) ∈ st → d.seq ≤ hwOf g.hw vb ∧ Below s g.ak vb d.seq)
+      ∀ vb d, (vb, d) ∈ st → Bnd g vb d.seq ∧ Below s g.ak vb d.seq)
     (h5 : ∀ vb d, s'.store.get? vb = some d → s.store.get? vb = some d ∨
-      (d.seq ≤ hwOf g.hw vb ∧ Below s g.ak vb d.seq))
+      (Bnd g vb d.seq ∧ Below s g.ak vb d.seq))
     (h6 : ∀ vb, s'.observers.has vb = true → s.observers.has vb = true) : Inv s' g := by
   refine ⟨?_, ?_, ?_, ?_, ?_, ?_, ?_⟩
   · intro p hp; rw [h2] at hp; rw [h1]; exact h.sessLe p hp
-  · intro p hp hs; rw [h2] at hp; rw [h1] at hs; exact h.ctxHw p hp hs
+  · intro p hp hs; rw [h2] at hp; rw [h1] at hs; exact h.ctxPos p hp hs
   · intro vb o hm
     rcases h3 vb o hm with hm' | hnew
-    · exact h.offHw vb o hm'
+    · exact h.offBnd vb o hm'
     · exact hnew.1
   · intro vb o hm
     rcases h3 vb o hm with hm' | hnew
@@ -838,7 +940,7 @@ theorem inv_frame {s s' : St} {g : Gh} (h : Inv s g) (h1 : s'.sess = s.sess) (h2
     · exact ⟨(hnew vb d hd).1, below_congr h1 h2 (hnew vb d hd).2⟩
   · intro vb d hs ho
     rcases h5 vb d hs with hs' | hnew
-    · exact h.storeHw vb d hs' (h6 vb ho)
+    · exact h.storeBnd vb d hs' (h6 vb ho)
     · exact hnew.1
   · intro vb d hs
     rcases h5 vb d hs with hs' | hnew
@@ -854,6 +956,32 @@ theorem hwOf_set_ge (hw : AMap Nat) (vb v : Vb) (q : Nat) (h : hwOf hw vb ≤ q)
   rw [hwOf_set]; split
   · rename_i hv; subst hv; exact h
   · exact Nat.le_refl _
+
+/-- raising `hw` keeps what was covered -/
+theorem bnd_raise {g : Gh} {vb v : Vb} {q x : Nat} (hb : Bnd g v x) (hq : hwOf g.hw vb ≤ q) :
+    Bnd { g with hw := g.hw.set vb q } v x := by
+  rcases hb with hb | hb
+  · exact Or.inl (Nat.le_trans hb (hwOf_set_ge g.hw vb v q hq))
+  · exact Or.inr hb
+
+/-- setting `hw` of one vBucket (possibly lower): the others keep their cover, `vb` needs its own -/
+theorem bnd_set {g : Gh} {vb v : Vb} {q x : Nat} (hb : Bnd g v x) (hx : v = vb → x ≤ q) :
+    Bnd { g with hw := g.hw.set vb q } v x := by
+  by_cases hv : v = vb
+  · left; show x ≤ hwOf (g.hw.set vb q) v; rw [hwOf_set, if_pos hv]; exact hx hv
+  · rcases hb with hb | hb
+    · left; show x ≤ hwOf (g.hw.set vb q) v; rw [hwOf_set, if_neg hv]; exact hb
+    · exact Or.inr hb
+
+/-- a covered seqno is below every event the server may send next that is not settled -/
+theorem bnd_lt {g : Gh} {vb : Vb} {x q : Nat} (hb : Bnd g vb x) (h1 : hwOf g.hw vb < q)
+    (h2 : settled g.ak vb q = false) : x < q := by
+  rcases hb with hb | hb
+  · omega
+  · unfold settled at hb h2
+    cases ha : g.ak.get? vb with
+    | none => simp [ha] at hb
+    | some a => simp [ha] at hb h2; omega
 
 /-- what a store call writes comes from the dump it was given -/
 theorem mdWrite_get?_cases (s : St) (st : List (Vb × Doc)) (dd : List Vb) (res : StoreRes) (vb : Vb) (d : Doc)
@@ -886,18 +1014,23 @@ theorem mdWrite_get?_cases (s : St) (st : List (Vb × Doc)) (dd : List Vb) (res 
       | fail => simp at h; exact absurd h hold
       | part ws => exact hw _ (fun p hp => (List.mem_filter.mp (List.mem_filter.mp hp).1).1) h
 
+/-- ops that issue stream requests inside a session: they move the ghost `hw` -/
+def isReq : Op → Bool
+  | .rebalance _ _ | .reopen _ => true
+  | _ => false
+
 theorem ghStep_other (g : Gh) (s : St) (op : Op) (hs : (step s op).1.sess = s.sess)
-    (hop : B.isSettleOp op = false) : ghStep g s op = g := by
+    (hop : B.isSettleOp op = false) (hrq : isReq op = false) : ghStep g s op = g := by
   unfold ghStep
   simp only [hs, ne_eq, not_true_eq_false, if_false]
-  cases op <;> first | rfl | simp [B.isSettleOp] at hop
+  cases op <;> first | rfl | (simp [B.isSettleOp] at hop; done) | (simp [isReq] at hrq; done)
 
 theorem dumpState_bounds {s : St} {g : Gh} (h : Inv s g) (vb : Vb) (d : Doc) (hd : (vb, d) ∈ dumpState s) :
-    d.seq ≤ hwOf g.hw vb ∧ Below s g.ak vb d.seq := by
+    Bnd g vb d.seq ∧ Below s g.ak vb d.seq := by
   obtain ⟨o, ho, hdo⟩ := mem_dumpState hd
   simp only at ho hdo
   subst hdo
-  exact ⟨h.offHw vb o ho, h.offBelow vb o ho⟩
+  exact ⟨h.offBnd vb o ho, h.offBelow vb o ho⟩
 
 theorem has_map_obs (m : AMap Obs) (f : Obs → Obs) (v : Vb) :
     AMap.has (m.map fun x => (x.1, f x.2)) v = AMap.has m v := by
@@ -908,6 +1041,13 @@ theorem has_map_obs (m : AMap Obs) (f : Obs → Obs) (v : Vb) :
     obtain ⟨k, o⟩ := hd
     by_cases hk : k = v <;> simp_all [AMap.get?]
 
+/-- the observers `stream.Close` leaves are the old ones -/
+theorem has_closedOf (s : St) (v : Vb) : (closedOf s).observers.has v = s.observers.has v := by
+  have : (closedOf s).observers = s.observers.map fun x => (x.1, x.2.close.closeEnd) := by
+    simp only [closedOf]
+  rw [this]
+  exact has_map_obs s.observers (fun o => o.close.closeEnd) v
+
 /-- the ops that touch neither the positions nor the ghost component -/
 theorem step_inv_quiet (s : St) (g : Gh) (op : Op) (h : Inv s g)
     (hop : match op with
@@ -916,42 +1056,42 @@ theorem step_inv_quiet (s : St) (g : Gh) (op : Op) (h : Inv s g)
       | _ => False) : Inv (step s op).1 (ghStep g s op) := by
   cases op with
   | setHigh vb n =>
-    rw [ghStep_other g s _ (step_sess s (by rfl)) rfl]
+    rw [ghStep_other g s _ (step_sess s (by rfl)) rfl rfl]
     exact inv_frame h (step_sess s (by rfl)) (step_ctxs s (by rfl))
       (by rw [step_offsets s (by rfl)]; exact fun _ _ hp => Or.inl hp)
       (by rw [step_savers s (by rfl)]; exact fun _ _ _ hm => Or.inl hm)
       (by rw [step_store s (by rfl)]; exact fun _ _ hs => Or.inl hs)
       (by rw [step_observers s (by rfl)]; exact fun _ ho => ho)
   | setFlog vb n =>
-    rw [ghStep_other g s _ (step_sess s (by rfl)) rfl]
+    rw [ghStep_other g s _ (step_sess s (by rfl)) rfl rfl]
     exact inv_frame h (step_sess s (by rfl)) (step_ctxs s (by rfl))
       (by rw [step_offsets s (by rfl)]; exact fun _ _ hp => Or.inl hp)
       (by rw [step_savers s (by rfl)]; exact fun _ _ _ hm => Or.inl hm)
       (by rw [step_store s (by rfl)]; exact fun _ _ hs => Or.inl hs)
       (by rw [step_observers s (by rfl)]; exact fun _ ho => ho)
   | getOffsets =>
-    rw [ghStep_other g s _ (step_sess s (by rfl)) rfl]
+    rw [ghStep_other g s _ (step_sess s (by rfl)) rfl rfl]
     exact inv_frame h (step_sess s (by rfl)) (step_ctxs s (by rfl))
       (by rw [step_offsets s (by rfl)]; exact fun _ _ hp => Or.inl hp)
       (by rw [step_savers s (by rfl)]; exact fun _ _ _ hm => Or.inl hm)
       (by rw [step_store s (by rfl)]; exact fun _ _ hs => Or.inl hs)
       (by rw [step_observers s (by rfl)]; exact fun _ ho => ho)
   | metrics vb =>
-    rw [ghStep_other g s _ (step_sess s (by rfl)) rfl]
+    rw [ghStep_other g s _ (step_sess s (by rfl)) rfl rfl]
     exact inv_frame h (step_sess s (by rfl)) (step_ctxs s (by rfl))
       (by rw [step_offsets s (by rfl)]; exact fun _ _ hp => Or.inl hp)
       (by rw [step_savers s (by rfl)]; exact fun _ _ _ hm => Or.inl hm)
       (by rw [step_store s (by rfl)]; exact fun _ _ hs => Or.inl hs)
       (by rw [step_observers s (by rfl)]; exact fun _ ho => ho)
   | scrape =>
-    rw [ghStep_other g s _ (step_sess s (by rfl)) rfl]
+    rw [ghStep_other g s _ (step_sess s (by rfl)) rfl rfl]
     exact inv_frame h (step_sess s (by rfl)) (step_ctxs s (by rfl))
       (by rw [step_offsets s (by rfl)]; exact fun _ _ hp => Or.inl hp)
       (by rw [step_savers s (by rfl)]; exact fun _ _ _ hm => Or.inl hm)
       (by rw [step_store s (by rfl)]; exact fun _ _ hs => Or.inl hs)
       (by rw [step_observers s (by rfl)]; exact fun _ ho => ho)
   | persist vb q =>
-    rw [ghStep_other g s _ (step_sess s (by rfl)) rfl]
+    rw [ghStep_other g s _ (step_sess s (by rfl)) rfl rfl]
     refine inv_frame h (step_sess s (by rfl)) (step_ctxs s (by rfl))
       (by rw [step_offsets s (by rfl)]; exact fun _ _ hp => Or.inl hp)
       (by rw [step_savers s (by rfl)]; exact fun _ _ _ hm => Or.inl hm)
@@ -968,7 +1108,7 @@ theorem step_inv_quiet (s : St) (g : Gh) (op : Op) (h : Inv s g)
         · subst hvv; simp [AMap.has, ho]
         · simpa [hvv] using hv
   | svBegin k =>
-    rw [ghStep_other g s _ (step_sess s (by rfl)) rfl]
+    rw [ghStep_other g s _ (step_sess s (by rfl)) rfl rfl]
     refine inv_frame h (step_sess s (by rfl)) (step_ctxs s (by rfl))
       (by rw [step_offsets s (by rfl)]; exact fun _ _ hp => Or.inl hp) ?_
       (by rw [step_store s (by rfl)]; exact fun _ _ hs => Or.inl hs)
@@ -981,7 +1121,7 @@ theorem step_inv_quiet (s : St) (g : Gh) (op : Op) (h : Inv s g)
     · cases h1
     · exact h1
   | svUnmark k =>
-    rw [ghStep_other g s _ (step_sess s (by rfl)) rfl]
+    rw [ghStep_other g s _ (step_sess s (by rfl)) rfl rfl]
     refine inv_frame h (step_sess s (by rfl)) (step_ctxs s (by rfl))
       (by rw [step_offsets s (by rfl)]; exact fun _ _ hp => Or.inl hp) ?_
       (by rw [step_store s (by rfl)]; exact fun _ _ hs => Or.inl hs)
@@ -992,7 +1132,7 @@ theorem step_inv_quiet (s : St) (g : Gh) (op : Op) (h : Inv s g)
     (repeat' split at hm) <;> try exact hm
     exact mem_filter_savers hm
   | svDump k =>
-    rw [ghStep_other g s _ (step_sess s (by rfl)) rfl]
+    rw [ghStep_other g s _ (step_sess s (by rfl)) rfl rfl]
     refine inv_frame h (step_sess s (by rfl)) (step_ctxs s (by rfl))
       (by rw [step_offsets s (by rfl)]; exact fun _ _ hp => Or.inl hp) ?_
       (by rw [step_store s (by rfl)]; exact fun _ _ hs => Or.inl hs)
@@ -1008,7 +1148,7 @@ theorem step_inv_quiet (s : St) (g : Gh) (op : Op) (h : Inv s g)
       exact fun vb d hd => dumpState_bounds h vb d hd
     · exact Or.inl h1
   | svStore k res =>
-    rw [ghStep_other g s _ (step_sess s (by rfl)) rfl]
+    rw [ghStep_other g s _ (step_sess s (by rfl)) rfl rfl]
     cases hk : s.savers.get? k with
     | none =>
       simp only [step, svStore, hk]
@@ -1024,7 +1164,7 @@ theorem step_inv_quiet (s : St) (g : Gh) (op : Op) (h : Inv s g)
       | dumped st dd =>
         have hmem := AMap.mem_of_get?_eq_some hk
         have hst : ∀ vb d, (mdWrite s st dd res).1.get? vb = some d → s.store.get? vb = some d ∨
-            (d.seq ≤ hwOf g.hw vb ∧ Below s g.ak vb d.seq) := by
+            (Bnd g vb d.seq ∧ Below s g.ak vb d.seq) := by
           intro vb d hg
           rcases mdWrite_get?_cases s st dd res vb d hg with h1 | h1
           · exact Or.inl h1
@@ -1039,9 +1179,9 @@ theorem step_inv_quiet (s : St) (g : Gh) (op : Op) (h : Inv s g)
         · exact inv_frame h rfl rfl (fun _ _ hp => Or.inl hp) (fun k' st' d' hm => Or.inl (mem_filter_savers hm))
             hst (fun _ ho => ho)
   | save res =>
-    rw [ghStep_other g s _ (step_sess s (by rfl)) rfl]
+    rw [ghStep_other g s _ (step_sess s (by rfl)) rfl rfl]
     have hst : ∀ vb d, (mdWrite s (dumpState s) (curDirty s) res).1.get? vb = some d →
-        s.store.get? vb = some d ∨ (d.seq ≤ hwOf g.hw vb ∧ Below s g.ak vb d.seq) := by
+        s.store.get? vb = some d ∨ (Bnd g vb d.seq ∧ Below s g.ak vb d.seq) := by
       intro vb d hg
       rcases mdWrite_get?_cases s _ _ res vb d hg with h1 | h1
       · exact Or.inl h1
@@ -1052,16 +1192,16 @@ theorem step_inv_quiet (s : St) (g : Gh) (op : Op) (h : Inv s g)
         | exact inv_frame h rfl rfl (fun _ _ hp => Or.inl hp) (fun _ _ _ hm => Or.inl hm) (fun _ _ hs => Or.inl hs) (fun _ ho => ho)
         | exact inv_frame h rfl rfl (fun _ _ hp => Or.inl hp) (fun _ _ _ hm => Or.inl hm) hst (fun _ ho => ho)
   | close =>
-    rw [ghStep_other g s _ (step_sess s (by rfl)) rfl]
-    simp only [step, closeSession]
-    split
-    · exact inv_frame h rfl rfl (fun _ _ hp => Or.inl hp) (fun _ _ _ hm => Or.inl hm) (fun _ _ hs => Or.inl hs) (fun _ ho => ho)
-    · refine inv_frame h rfl rfl (fun _ _ hp => by simp at hp) (fun _ _ _ hm => Or.inl hm)
+    rw [ghStep_other g s _ (step_sess s (by rfl)) rfl rfl]
+    simp only [step]
+    by_cases hio : s.isOpen = true
+    · rw [closeSession_of_open hio]
+      refine inv_frame h rfl rfl (fun _ _ hp => by simp [closedOf] at hp) (fun _ _ _ hm => Or.inl hm)
         (fun _ _ hs => Or.inl hs) ?_
       intro v hv
-      simp only at hv
-      rw [has_map_obs s.observers (fun o => o.close.closeEnd)] at hv
-      exact hv
+      rw [has_closedOf] at hv; exact hv
+    · rw [closeSession_of_not_open (by simpa using hio)]
+      exact h
   | _ => exact absurd hop (by simp)
 
 /-- a new session has no delivered event yet -/
@@ -1093,6 +1233,31 @@ theorem load_store_seq {s : St} {offs : AMap Offset} {dirty : List Vb} {any : Bo
       rw [AMap.get?_ofKeys (fun vb => ((s.store.get? vb).getD Doc.zero).toOffset
         (initLatest s.cfg.finite ((s.high.get? vb).getD 0)))]
       simp [hvb, hd]
+
+/-- the two starts of `checkpoint.Load`: the latest-reset one (no stored document in the range), or
+    every loaded position is the stored seqno of its vBucket (0 without a document) -/
+theorem load_seq_cases {s : St} {offs : AMap Offset} {dirty : List Vb} {any : Bool}
+    (h : load s = some (offs, dirty, any)) :
+    (((vbRange s.cfg).any fun vb => s.store.has vb) = false ∧ s.cfg.resetLatest = true) ∨
+    (∀ vb o, (vb, o) ∈ offs → o.seq = ((s.store.get? vb).getD Doc.zero).seq) := by
+  unfold load mdLoad at h
+  dsimp only at h
+  split at h
+  · rename_i hc
+    simp only [Bool.and_eq_true, Bool.not_eq_true'] at hc
+    exact Or.inl hc
+  · split at h
+    · cases h
+    · injection h with h
+      injection h with h1 _
+      right
+      intro vb o hm
+      rw [← h1] at hm
+      simp only [List.map_map, List.mem_map, Function.comp] at hm
+      obtain ⟨v, _, he⟩ := hm
+      injection he with e1 e2
+      subst e1
+      rw [← e2]; rfl
 
 theorem hwOf_map_seq (offs : AMap Offset) (vb : Vb) :
     hwOf (offs.map fun p => (p.1, p.2.seq)) vb = ((offs.get? vb).map (·.seq)).getD 0 := by
@@ -1159,6 +1324,7 @@ theorem step_inv_session (s : St) (g : Gh) (op : Op) (h : Inv s g) (hop : op = .
         · intro p hp hps; rw [hc] at hp; rw [hs] at hps; have := h.sessLe p hp; omega
         · intro vb o hm
           rw [hoff] at hm
+          left
           simp only [hwOf_map_seq, B.get?_of_mem_nodup hnd hm]
           exact Nat.le_refl _
         · intro vb o _; exact below_new_session h.sessLe hs hc vb _
@@ -1175,9 +1341,165 @@ theorem step_inv_session (s : St) (g : Gh) (op : Op) (h : Inv s g) (hop : op = .
               AMap.keys_mapVal (fun vb o => initObs s vb o) offs
             rw [hk] at this; exact this
           obtain ⟨o, ho1, ho2⟩ := load_store_seq hl vb hvb d hst'
+          left
           simp only [hwOf_map_seq, ho1, Option.map_some, Option.getD_some, ho2]
           exact Nat.le_refl _
         · intro vb d _; exact below_new_session h.sessLe hs hc vb _
+
+theorem rebalOk_of_some {s : St} {lo hi : Vb} {r : AMap Offset × List Vb × Bool} (h1 : s.isOpen = true)
+    (h2 : s.savers = []) (h3 : lo ≤ hi) (hl : load (rebalBase s lo hi) = some r) : rebalOk s lo hi = true := by
+  simp [rebalOk, h1, h2, h3, hl]
+
+theorem rebalOk_of_none {s : St} {lo hi : Vb} (hl : load (rebalBase s lo hi) = none) : rebalOk s lo hi = false := by
+  simp [rebalOk, hl]
+
+theorem rebalOk_of_refused {s : St} {lo hi : Vb} (hc : ¬ (s.isOpen = true ∧ s.savers = [] ∧ lo ≤ hi)) :
+    rebalOk s lo hi = false := by
+  cases hr : rebalOk s lo hi with
+  | false => rfl
+  | true =>
+    exfalso; apply hc
+    simp only [rebalOk, Bool.and_eq_true, decide_eq_true_eq, List.isEmpty_iff] at hr
+    exact ⟨hr.1.1.1, hr.1.1.2, hr.1.2⟩
+
+theorem ghStep_rebalance (g : Gh) (s : St) (lo hi : Vb) :
+    ghStep g s (.rebalance lo hi) =
+      if rebalOk s lo hi then
+        { g with hw := (step s (.rebalance lo hi)).1.offsets.map fun p => (p.1, p.2.seq) }
+      else g := by
+  have hs : (step s (.rebalance lo hi)).1.sess = s.sess := step_sess s (by rfl)
+  simp [ghStep, hs]
+
+theorem ghStep_reopen (g : Gh) (s : St) (vb : Vb) :
+    ghStep g s (.reopen vb) =
+      match (step s (.reopen vb)).2 with
+      | [.openreq v o] => { g with hw := g.hw.set v o.seq }
+      | _ => g := by
+  have hs : (step s (.reopen vb)).1.sess = s.sess := step_sess s (by rfl)
+  simp [ghStep, hs]
+
+/-- **a rebalance**: the session, its contexts and acknowledgements go on; positions are loaded again
+    from the store, which is below every unsettled event (`storeBelow`) – unless the load takes the
+    latest-reset start (`resetJumpAt`) -/
+theorem step_inv_rebalance (s : St) (g : Gh) (lo hi : Vb) (h : Inv s g)
+    (hrj : resetJumpAt s g (.rebalance lo hi) = false) :
+    Inv (step s (.rebalance lo hi)).1 (ghStep g s (.rebalance lo hi)) := by
+  rw [ghStep_rebalance]
+  by_cases hc : s.isOpen = true ∧ s.savers = [] ∧ lo ≤ hi
+  · obtain ⟨h1, h2, h3⟩ := hc
+    cases hl : load (rebalBase s lo hi) with
+    | none =>
+      have he : (step s (.rebalance lo hi)).1 = { rebalBase s lo hi with everOpened := false } := by
+        simp [step, rebalanceSession_of_load_none h1 h2 h3 hl]
+      rw [rebalOk_of_none hl, he]
+      simp only [Bool.false_eq_true, if_false]
+      refine inv_frame h rfl rfl (fun _ _ hp => by simp [rebalBase, closedOf] at hp) (fun _ _ _ hm => Or.inl hm)
+        (fun _ _ hs => Or.inl hs) ?_
+      intro v hv
+      have : (closedOf s).observers.has v = true := hv
+      rw [has_closedOf] at this; exact this
+    | some r =>
+      obtain ⟨offs, dirty, any⟩ := r
+      have he : (step s (.rebalance lo hi)).1 = rebalDone s lo hi offs dirty any := by
+        simp [step, rebalanceSession_of_load_some h1 h2 h3 hl]
+      rw [rebalOk_of_some h1 h2 h3 hl, he]
+      simp only [if_true, rebalDone_offsets]
+      have hkeys : AMap.keys offs = vbRange { s.cfg with lo := lo, hi := hi } := load_keys hl
+      have hnd : (AMap.keys offs).Nodup := by rw [hkeys]; exact B.vbRange_nodup _
+      have hsess : (rebalDone s lo hi offs dirty any).sess = s.sess := rfl
+      have hctx : (rebalDone s lo hi offs dirty any).ctxs = s.ctxs := rfl
+      refine ⟨?_, ?_, ?_, ?_, ?_, ?_, ?_⟩
+      · intro p hp; exact h.sessLe p hp
+      · intro p hp hps; exact h.ctxPos p hp hps
+      · intro vb o hm
+        left
+        show o.seq ≤ hwOf (offs.map fun p => (p.1, p.2.seq)) vb
+        simp only [hwOf_map_seq, B.get?_of_mem_nodup hnd hm]
+        exact Nat.le_refl _
+      · intro vb o hm
+        apply below_congr hsess hctx
+        rcases load_seq_cases hl with ⟨hne, hrl⟩ | hseq
+        · -- latest-reset start: excluded unless nothing delivered in the new range is unsettled
+          have hvb : vb ∈ vbRange { s.cfg with lo := lo, hi := hi } := by
+            rw [← hkeys]; exact AMap.mem_keys_of_mem hm
+          have hrl' : s.cfg.resetLatest = true := hrl
+          have hne' : ((vbRange { s.cfg with lo := lo, hi := hi }).any fun vb => s.store.has vb) = false := hne
+          have key : ∀ R : List Vb,
+              (s.cfg.resetLatest && !(R.any fun vb => s.store.has vb) && R.any (anyUnsettled s g.ak)) = false →
+              (R.any fun vb => s.store.has vb) = false → R.any (anyUnsettled s g.ak) = false := by
+            intro R k1 k2; rw [hrl', k2] at k1; simpa using k1
+          have hu := List.any_eq_false.1 (key _ hrj hne') vb hvb
+          have hu' : anyUnsettled s g.ak vb = false := by simpa using hu
+          intro p hp hv
+          exact absurd hv ((anyUnsettled_false_iff s g.ak vb).1 hu' p hp)
+        · have hq := hseq vb o hm
+          have hst : (rebalBase s lo hi).store = s.store := rfl
+          rw [hst] at hq
+          cases hg : s.store.get? vb with
+          | none =>
+            rw [hg] at hq
+            intro p ⟨hpm, hps, _⟩ _
+            have := h.ctxPos p hpm hps
+            simp only [Option.getD_none, Doc.zero] at hq
+            omega
+          | some d =>
+            rw [hg] at hq
+            simp only [Option.getD_some] at hq
+            rw [hq]; exact h.storeBelow vb d hg
+      · intro k st dd hm
+        rw [rebalDone_savers, h2] at hm; cases hm
+      · intro vb d hst ho
+        have hst' : (rebalBase s lo hi).store.get? vb = some d := hst
+        have hvb : vb ∈ vbRange (rebalBase s lo hi).cfg := by
+          show vb ∈ vbRange { s.cfg with lo := lo, hi := hi }
+          rw [← hkeys]
+          rw [rebalDone_observers, AMap.has_iff_mem_keys] at ho
+          have hk : AMap.keys (offs.map fun p => (p.1, initObs s p.1 p.2)) = AMap.keys offs :=
+            AMap.keys_mapVal (fun vb o => initObs s vb o) offs
+          rw [hk] at ho; exact ho
+        obtain ⟨o, ho1, ho2⟩ := load_store_seq hl vb hvb d hst'
+        left
+        show d.seq ≤ hwOf (offs.map fun p => (p.1, p.2.seq)) vb
+        simp only [hwOf_map_seq, ho1, Option.map_some, Option.getD_some, ho2]
+        exact Nat.le_refl _
+      · intro vb d hst
+        exact below_congr hsess hctx (h.storeBelow vb d hst)
+  · obtain ⟨w, e⟩ := rebalanceSession_of_refused (s := s) (lo := lo) (hi := hi) hc
+    have he : (step s (.rebalance lo hi)).1 = s := by simp [step, e]
+    rw [rebalOk_of_refused hc, he]
+    simpa using h
+
+/-- **a transient reopen**: nothing moves but the server's obligation for that vBucket, which
+    starts again at the current position – nothing dumped or stored is ahead of it (`InvLe`) -/
+theorem step_inv_reopen (s : St) (g : Gh) (vb : Vb) (h : Inv s g) (hle : InvLe s) :
+    Inv (step s (.reopen vb)).1 (ghStep g s (.reopen vb)) := by
+  rw [ghStep_reopen]
+  simp only [step]
+  rcases reopenStream_cases s vb with ⟨w, e⟩ | ⟨o, ob, h1, h2, h3, e⟩ <;> rw [e]
+  · exact h
+  · simp only
+    have hob : s.observers.has vb = true := by simp [AMap.has, h3]
+    refine ⟨h.sessLe, h.ctxPos, ?_, h.offBelow, ?_, ?_, h.storeBelow⟩
+    · intro v o' hm
+      refine bnd_set (h.offBnd v o' hm) ?_
+      intro hv; subst hv
+      have := B.get?_of_mem_nodup hle.nodup hm
+      rw [h2] at this; cases this
+      exact Nat.le_refl _
+    · intro k st dd hm v d hd
+      refine ⟨bnd_set (h.dump k st dd hm v d hd).1 ?_, (h.dump k st dd hm v d hd).2⟩
+      intro hv; subst hv
+      exact hle.dumpLe h1 k st dd hm v d hd o h2
+    · intro v d hst hov
+      have hov' : s.observers.has v = true := by
+        simp only [] at hov
+        rw [AMap.has_set] at hov
+        by_cases hv : v = vb
+        · subst hv; exact hob
+        · simpa [hv] using hov
+      refine bnd_set (h.storeBnd v d hst hov') ?_
+      intro hv; subst hv
+      exact hle.storeLe h1 v d hst o h2
 
 theorem settled_mono_set (ak : AMap Nat) (vb v : Vb) (x q : Nat) (h : settled ak v q = true) :
     settled (ak.set vb (match ak.get? vb with | some a => max a x | none => x)) v q = true := by
@@ -1190,6 +1512,15 @@ theorem settled_mono_set (ak : AMap Nat) (vb v : Vb) (x q : Nat) (h : settled ak
     | none => simp [ha] at h
     | some a => simp only [ha, decide_eq_true_eq] at h ⊢; omega
   · simp only [hv, if_false]; exact h
+
+/-- an acknowledgement covers its own seqno -/
+theorem settled_set_self (ak : AMap Nat) (vb : Vb) (x : Nat) :
+    settled (ak.set vb (match ak.get? vb with | some a => max a x | none => x)) vb x = true := by
+  unfold settled
+  rw [AMap.get?_set_same]
+  cases ha : ak.get? vb with
+  | none => simp
+  | some a => simp only [decide_eq_true_eq]; omega
 
 /-- an effective acknowledgement -/
 theorem step_inv_ack (s : St) (g : Gh) (i : Nat) (h : Inv s g) : Inv (step s (.ack i)).1 (ghStep g s (.ack i)) := by
@@ -1205,7 +1536,6 @@ theorem step_inv_ack (s : St) (g : Gh) (i : Nat) (h : Inv s g) : Inv (step s (.a
       have hg : ghStep g s (.ack i) =
           { g with ak := g.ak.set p.vb (match g.ak.get? p.vb with | some a => max a p.off.seq | none => p.off.seq) } := by
         simp [ghStep, hsess, hc, hps]
-      have hpm : p ∈ s.ctxs := List.mem_of_getElem? hc
       rw [hg, he]
       have hbel : ∀ v x, Below s g.ak v x →
           Below (ack s p).1 (g.ak.set p.vb (match g.ak.get? p.vb with | some a => max a p.off.seq | none => p.off.seq)) v x := by
@@ -1214,14 +1544,20 @@ theorem step_inv_ack (s : St) (g : Gh) (i : Nat) (h : Inv s g) : Inv (step s (.a
         cases hst : settled g.ak p'.vb p'.off.seq with
         | false => rfl
         | true => rw [settled_mono_set g.ak p.vb p'.vb p.off.seq p'.off.seq hst] at hu; cases hu
+      have hbnd : ∀ v x, Bnd g v x →
+          Bnd { g with ak := g.ak.set p.vb (match g.ak.get? p.vb with | some a => max a p.off.seq | none => p.off.seq) } v x := by
+        intro v x hb
+        rcases hb with hb | hb
+        · exact Or.inl hb
+        · exact Or.inr (settled_mono_set g.ak p.vb v p.off.seq x hb)
       refine ⟨?_, ?_, ?_, ?_, ?_, ?_, ?_⟩
       · intro p' hp'; simp only [ack_ctxs, ack_sess] at hp' ⊢; exact h.sessLe p' hp'
-      · intro p' hp' hs'; simp only [ack_ctxs, ack_sess] at hp' hs'; exact h.ctxHw p' hp' hs'
+      · intro p' hp' hs'; simp only [ack_ctxs, ack_sess] at hp' hs'; exact h.ctxPos p' hp' hs'
       · intro vb o hm
         rw [ack_offsets] at hm
         rcases setOffset_mem _ _ _ _ _ hm with h1 | ⟨h1, _⟩
-        · exact h.offHw vb o h1
-        · cases h1; exact h.ctxHw p hpm hps
+        · exact hbnd vb _ (h.offBnd vb o h1)
+        · cases h1; exact Or.inr (settled_set_self g.ak p.vb p.off.seq)
       · intro vb o hm
         rw [ack_offsets] at hm
         rcases setOffset_mem _ _ _ _ _ hm with h1 | ⟨h1, _⟩
@@ -1235,10 +1571,10 @@ theorem step_inv_ack (s : St) (g : Gh) (i : Nat) (h : Inv s g) : Inv (step s (.a
           | some a => simp [ha] at hu; omega
       · intro k st dd hm vb d hd
         simp only [ack_savers] at hm
-        exact ⟨(h.dump k st dd hm vb d hd).1, hbel vb _ (h.dump k st dd hm vb d hd).2⟩
+        exact ⟨hbnd vb _ (h.dump k st dd hm vb d hd).1, hbel vb _ (h.dump k st dd hm vb d hd).2⟩
       · intro vb d hst ho
         simp only [ack_store, ack_observers] at hst ho
-        exact h.storeHw vb d hst ho
+        exact hbnd vb _ (h.storeBnd vb d hst ho)
       · intro vb d hst
         simp only [ack_store] at hst
         exact hbel vb _ (h.storeBelow vb d hst)
@@ -1292,21 +1628,22 @@ theorem ghStep_ev (g : Gh) (s : St) (vb : Vb) (e : SrvEv) :
 
 theorem inv_raise {s : St} {g : Gh} (h : Inv s g) (vb : Vb) (q : Nat) (hq : hwOf g.hw vb ≤ q) :
     Inv s { g with hw := g.hw.set vb q } := by
-  have hm : ∀ v, hwOf g.hw v ≤ hwOf (g.hw.set vb q) v := fun v => hwOf_set_ge g.hw vb v q hq
-  refine ⟨h.sessLe, ?_, ?_, h.offBelow, ?_, ?_, h.storeBelow⟩
-  · intro p hp hs; exact Nat.le_trans (h.ctxHw p hp hs) (hm _)
-  · intro v o ho; exact Nat.le_trans (h.offHw v o ho) (hm _)
-  · intro k st dd hk v d hd; exact ⟨Nat.le_trans (h.dump k st dd hk v d hd).1 (hm _), (h.dump k st dd hk v d hd).2⟩
-  · intro v d hst ho; exact Nat.le_trans (h.storeHw v d hst ho) (hm _)
+  refine ⟨h.sessLe, h.ctxPos, ?_, h.offBelow, ?_, ?_, h.storeBelow⟩
+  · intro v o ho; exact bnd_raise (h.offBnd v o ho) hq
+  · intro k st dd hk v d hd; exact ⟨bnd_raise (h.dump k st dd hk v d hd).1 hq, (h.dump k st dd hk v d hd).2⟩
+  · intro v d hst ho; exact bnd_raise (h.storeBnd v d hst ho) hq
 
+/-- one more context: what was below the unsettled ones stays below if it is below the new one
+    (as far as the new one is unsettled) -/
 theorem below_append {s s' : St} {ak : AMap Nat} {v : Vb} {x : Nat} (p0 : Pending) (hb : Below s ak v x)
-    (hnew : p0.vb = v → x < p0.off.seq) (hc : s'.ctxs = s.ctxs ++ [p0]) (hs : s'.sess = s.sess) :
+    (hnew : p0.vb = v → settled ak p0.vb p0.off.seq = false → x < p0.off.seq)
+    (hc : s'.ctxs = s.ctxs ++ [p0]) (hs : s'.sess = s.sess) :
     Below s' ak v x := by
   intro p ⟨hm, hps, hu⟩ hv
   rw [hc] at hm
   rcases List.mem_append.mp hm with hm | hm
   · exact hb p ⟨hm, by rw [← hs]; exact hps, hu⟩ hv
-  · simp at hm; subst hm; exact hnew hv
+  · simp at hm; subst hm; exact hnew hv hu
 
 theorem evStep_has (s : St) (vb : Vb) (e : SrvEv) (v : Vb) (h : (evStep s vb e).1.observers.has v = true) :
     s.observers.has v = true := by
@@ -1369,12 +1706,12 @@ theorem step_inv_ev (s : St) (g : Gh) (vb : Vb) (e : SrvEv) (h : Inv s g)
         · right
           injection h1 with h1 h2
           subst h1 h2
-          refine ⟨by rw [hwOf_set]; simp, ?_⟩
+          refine ⟨Or.inl (by show o.seq ≤ hwOf (g.hw.set v o.seq) v; rw [hwOf_set]; simp), ?_⟩
           intro p hu hv
           exact absurd hv (hnone p hu)
         · exact Or.inl h1
       · exact Or.inl hmem
-  · -- a delivery: the event is a user document with seqno above everything seen so far
+  · -- a delivery: the event is a user document with seqno above everything sent since the last request
     have hp := passes_of_fwd ho hfwd
     obtain ⟨he, _, _, hseq, _⟩ := GoDcp.Obs.C03.obs_faithful_step s.cfg.obs o (Obs.step s.cfg.obs o e).1 e d off c t
       (by rw [← hfwd])
@@ -1385,16 +1722,14 @@ theorem step_inv_ev (s : St) (g : Gh) (vb : Vb) (e : SrvEv) (h : Inv s g)
     have hq : srvSeq (.doc d) = some off.seq := by simp [srvSeq, hseq]
     simp only [monoOk, hp, if_true, hq, decide_eq_true_eq] at hmono
     simp only [hp, if_true, hq]
-    have hge : ∀ v, hwOf g.hw v ≤ hwOf (g.hw.set vb off.seq) v :=
-      fun v => hwOf_set_ge g.hw vb v off.seq (Nat.le_of_lt hmono)
+    have hle : hwOf g.hw vb ≤ off.seq := Nat.le_of_lt hmono
     have hobs : s.observers.has vb = true := by simp [AMap.has, ho]
-    have hbel : ∀ v x, Below s g.ak v x → (v = vb → x ≤ hwOf g.hw vb) →
+    have hbel : ∀ v x, Below s g.ak v x → (v = vb → Bnd g vb x) →
         Below (evStep s vb (.doc d)).1 g.ak v x := by
       intro v x hb hx
       refine below_append ⟨s.sess, vb, off⟩ hb ?_ hctx hsess
-      intro hv
-      have := hx hv.symm
-      simp only; omega
+      intro hv hu
+      exact bnd_lt (hx hv.symm) hmono hu
     refine ⟨?_, ?_, ?_, ?_, ?_, ?_, ?_⟩
     · intro p hpm
       rw [hctx] at hpm; rw [hsess]
@@ -1404,29 +1739,30 @@ theorem step_inv_ev (s : St) (g : Gh) (vb : Vb) (e : SrvEv) (h : Inv s g)
     · intro p hpm hps
       rw [hctx] at hpm; rw [hsess] at hps
       rcases List.mem_append.mp hpm with hpm | hpm
-      · exact Nat.le_trans (h.ctxHw p hpm hps) (hge _)
-      · simp at hpm; subst hpm; simp [hwOf_set]
+      · exact h.ctxPos p hpm hps
+      · simp at hpm; subst hpm; show 0 < off.seq; omega
     · intro v o' hmem
       rw [hoffs] at hmem
-      exact Nat.le_trans (h.offHw v o' hmem) (hge _)
+      exact bnd_raise (h.offBnd v o' hmem) hle
     · intro v o' hmem
       rw [hoffs] at hmem
-      exact hbel v _ (h.offBelow v o' hmem) (fun hv => hv ▸ h.offHw v o' hmem)
+      exact hbel v _ (h.offBelow v o' hmem) (fun hv => hv ▸ h.offBnd v o' hmem)
     · intro k st dd hk v d' hd
       rw [hsav] at hk
       have := h.dump k st dd hk v d' hd
-      exact ⟨Nat.le_trans this.1 (hge _), hbel v _ this.2 (fun hv => hv ▸ this.1)⟩
+      exact ⟨bnd_raise this.1 hle, hbel v _ this.2 (fun hv => hv ▸ this.1)⟩
     · intro v d' hst hov
       rw [hstore] at hst
-      exact Nat.le_trans (h.storeHw v d' hst (evStep_has s vb _ v hov)) (hge _)
+      exact bnd_raise (h.storeBnd v d' hst (evStep_has s vb _ v hov)) hle
     · intro v d' hst
       rw [hstore] at hst
-      exact hbel v _ (h.storeBelow v d' hst) (fun hv => by subst hv; exact h.storeHw v d' hst hobs)
+      exact hbel v _ (h.storeBelow v d' hst) (fun hv => by subst hv; exact h.storeBnd v d' hst hobs)
 
 /-- **one step keeps the invariant** provided the step shows no overtaking, the
-    server keeps its contract at this step, and the op is not an external store write -/
-theorem step_inv (s : St) (g : Gh) (op : Op) (h : Inv s g) (hkf : overtakeAt s g op = false)
-    (hmono : monoOk s g op = true) (hns : isSetStore op = false) :
+    server keeps its contract at this step, a rebalance does not take the latest-reset start over an
+    unsettled event, and the op is not an external store write -/
+theorem step_inv (s : St) (g : Gh) (op : Op) (h : Inv s g) (hle : InvLe s) (hkf : overtakeAt s g op = false)
+    (hmono : monoOk s g op = true) (hrj : resetJumpAt s g op = false) (hns : isSetStore op = false) :
     Inv (step s op).1 (ghStep g s op) := by
   cases op with
   | setStore vb d => simp [isSetStore] at hns
@@ -1434,27 +1770,215 @@ theorem step_inv (s : St) (g : Gh) (op : Op) (h : Inv s g) (hkf : overtakeAt s g
   | ack i => exact step_inv_ack s g i h
   | crash => exact step_inv_session s g _ h (Or.inl rfl)
   | «open» => exact step_inv_session s g _ h (Or.inr rfl)
+  | rebalance lo hi => exact step_inv_rebalance s g lo hi h hrj
+  | reopen vb => exact step_inv_reopen s g vb h hle
   | _ => exact step_inv_quiet s g _ h trivial
+
+/-! #### `InvLe` -/
+
+theorem dumpState_le {s : St} (hn : (AMap.keys s.offsets).Nodup) {vb : Vb} {d : Doc} (hd : (vb, d) ∈ dumpState s)
+    {o : Offset} (ho : s.offsets.get? vb = some o) : d.seq ≤ o.seq := by
+  obtain ⟨o', ho', hdo⟩ := mem_dumpState hd
+  simp only at ho' hdo
+  have := B.get?_of_mem_nodup hn ho'
+  rw [ho] at this; cases this
+  rw [hdo]; exact Nat.le_refl _
+
+/-- positions, open flag and range stay; new dumps are dumps of the positions, new stored
+    documents come from a dump in flight or from a dump of the positions -/
+theorem invLe_frame {s s' : St} (h : InvLe s) (ho : s'.offsets = s.offsets) (hio : s'.isOpen = s.isOpen)
+    (hc : s'.cfg = s.cfg)
+    (hsav : ∀ k st d, (k, SaverPc.dumped st d) ∈ s'.savers → (k, SaverPc.dumped st d) ∈ s.savers ∨ st = dumpState s)
+    (hst : ∀ vb d, s'.store.get? vb = some d → s.store.get? vb = some d ∨
+      (∃ k st dd, (k, SaverPc.dumped st dd) ∈ s.savers ∧ (vb, d) ∈ st) ∨ (vb, d) ∈ dumpState s) : InvLe s' := by
+  refine ⟨by rw [ho]; exact h.nodup, ?_, ?_, ?_⟩
+  · intro hop vb hr; rw [hio] at hop; rw [hc] at hr; rw [ho]; exact h.hasEntry hop vb hr
+  · intro hop k st dd hm vb d hd o hg
+    rw [hio] at hop; rw [ho] at hg
+    rcases hsav k st dd hm with hm' | rfl
+    · exact h.dumpLe hop k st dd hm' vb d hd o hg
+    · exact dumpState_le h.nodup hd hg
+  · intro hop vb d hs o hg
+    rw [hio] at hop; rw [ho] at hg
+    rcases hst vb d hs with h1 | ⟨k, st, dd, hm, hd⟩ | hd
+    · exact h.storeLe hop vb d h1 o hg
+    · exact h.dumpLe hop k st dd hm vb d hd o hg
+    · exact dumpState_le h.nodup hd hg
+
+theorem invLe_quiet (s : St) (op : Op) (h : InvLe s) (h1 : op.touchesOffsets = false) (h2 : op.touchesIsOpen = false)
+    (h3 : op.touchesCfg = false) (h4 : op.touchesStore = false) : InvLe (step s op).1 :=
+  invLe_frame h (step_offsets s h1) (step_isOpen s h2) (step_cfg s h3) (fun _ _ _ hm => step_savers_dumped hm)
+    (fun vb d hg => Or.inl (by rw [step_store s h4] at hg; exact hg))
+
+/-- a stream object that is not open satisfies `InvLe` as soon as its positions have distinct keys -/
+theorem invLe_closed {s : St} (hn : (AMap.keys s.offsets).Nodup) (hio : s.isOpen = false) : InvLe s := by
+  refine ⟨hn, ?_, ?_, ?_⟩ <;> (intro h; rw [hio] at h; cases h)
+
+/-- right after a successful load (`Open`, rebalance): one position per assigned vBucket, no saver,
+    every position is the stored seqno or the latest-reset start (no stored document in the range) -/
+theorem invLe_loaded {s0 s' : St} {offs : AMap Offset} {dirty : List Vb} {any : Bool}
+    (hl : load s0 = some (offs, dirty, any)) (hc : s'.cfg = s0.cfg) (hst : s'.store = s0.store)
+    (ho : s'.offsets = offs) (hsv : s'.savers = []) : InvLe s' := by
+  have hkeys := load_keys hl
+  have hnd : (AMap.keys offs).Nodup := by rw [hkeys]; exact B.vbRange_nodup _
+  refine ⟨by rw [ho]; exact hnd, ?_, ?_, ?_⟩
+  · intro _ vb hr
+    rw [ho, AMap.has_iff_mem_keys, hkeys, ← hc]
+    exact (inRange_iff_mem_vbRange _ _).1 hr
+  · intro _ k st dd hm; rw [hsv] at hm; cases hm
+  · intro _ vb d hs o hg
+    rw [ho] at hg; rw [hst] at hs
+    have hvb : vb ∈ vbRange s0.cfg := by
+      rw [← hkeys]; exact AMap.mem_keys_of_mem (AMap.mem_of_get?_eq_some hg)
+    obtain ⟨o', ho1, ho2⟩ := load_store_seq hl vb hvb d hs
+    rw [hg] at ho1; cases ho1
+    omega
+
+/-- an acknowledgement or a server event: positions only move up (every assigned vBucket has one) -/
+theorem invLe_settle (s : St) (op : Op) (hop : B.isSettleOp op = true) (h : InvLe s) : InvLe (step s op).1 := by
+  have hio : (step s op).1.isOpen = s.isOpen :=
+    step_isOpen s (by cases op <;> first | rfl | simp [B.isSettleOp] at hop)
+  have hcf : (step s op).1.cfg = s.cfg :=
+    step_cfg s (by cases op <;> first | rfl | simp [B.isSettleOp] at hop)
+  have hst : (step s op).1.store = s.store :=
+    step_store s (by cases op <;> first | rfl | simp [B.isSettleOp] at hop)
+  have hsv : (step s op).1.savers = s.savers :=
+    step_savers s (by cases op <;> first | rfl | simp [B.isSettleOp] at hop)
+  have hget := B.settle_get? s op hop
+  have hle : ∀ v o', (step s op).1.offsets.get? v = some o' → ∀ x, (∀ o, s.offsets.get? v = some o → x ≤ o.seq) →
+      s.isOpen = true → x ≤ o'.seq := by
+    intro v o' hg x hx hopen
+    rw [hget] at hg
+    cases hso : B.settleOf s op with
+    | none => rw [hso] at hg; exact hx o' hg
+    | some r =>
+      obtain ⟨vb, off, dd⟩ := r
+      rw [hso] at hg
+      simp only at hg
+      split at hg
+      · rename_i hcond
+        obtain ⟨rfl, hacc⟩ := hcond
+        injection hg with hg
+        subst hg
+        obtain ⟨hr, hpos⟩ := (accepts_iff_pos s v off).1 hacc
+        obtain ⟨cur, hcur⟩ := (AMap.has_iff_exists _ _).1 (h.hasEntry hopen v hr)
+        have := hx cur hcur
+        rw [posSeq_of_get? hcur] at hpos
+        omega
+      · exact hx o' hg
+  refine ⟨B.offsets_nodup_step s op h.nodup, ?_, ?_, ?_⟩
+  · intro hopen vb hr
+    rw [hio] at hopen; rw [hcf] at hr
+    obtain ⟨cur, hcur⟩ := (AMap.has_iff_exists _ _).1 (h.hasEntry hopen vb hr)
+    rw [AMap.has_iff_exists, hget]
+    cases hso : B.settleOf s op with
+    | none => exact ⟨cur, hcur⟩
+    | some r =>
+      obtain ⟨a, b, c⟩ := r
+      simp only
+      split
+      · exact ⟨_, rfl⟩
+      · exact ⟨cur, hcur⟩
+  · intro hopen k st dd hm vb d hd o' hg
+    rw [hio] at hopen; rw [hsv] at hm
+    exact hle vb o' hg d.seq (fun o ho => h.dumpLe hopen k st dd hm vb d hd o ho) hopen
+  · intro hopen vb d hs o' hg
+    rw [hio] at hopen; rw [hst] at hs
+    exact hle vb o' hg d.seq (fun o ho => h.storeLe hopen vb d hs o ho) hopen
+
+/-- **`InvLe` is preserved by every op** except an external store write -/
+theorem step_invLe (s : St) (op : Op) (h : InvLe s) (hns : isSetStore op = false) : InvLe (step s op).1 := by
+  have hnd := B.offsets_nodup_step s op h.nodup
+  cases op with
+  | setStore vb d => simp [isSetStore] at hns
+  | ack i => exact invLe_settle s _ rfl h
+  | ev vb e => exact invLe_settle s _ rfl h
+  | setHigh vb n => exact invLe_quiet s _ h rfl rfl rfl rfl
+  | setFlog vb n => exact invLe_quiet s _ h rfl rfl rfl rfl
+  | svBegin k => exact invLe_quiet s _ h rfl rfl rfl rfl
+  | svDump k => exact invLe_quiet s _ h rfl rfl rfl rfl
+  | svUnmark k => exact invLe_quiet s _ h rfl rfl rfl rfl
+  | persist vb q => exact invLe_quiet s _ h rfl rfl rfl rfl
+  | getOffsets => exact invLe_quiet s _ h rfl rfl rfl rfl
+  | metrics vb => exact invLe_quiet s _ h rfl rfl rfl rfl
+  | scrape => exact invLe_quiet s _ h rfl rfl rfl rfl
+  | reopen vb => exact invLe_quiet s _ h rfl rfl rfl rfl
+  | save res =>
+    refine invLe_frame h (step_offsets s (by rfl)) (step_isOpen s (by rfl)) (step_cfg s (by rfl))
+      (fun _ _ _ hm => step_savers_dumped hm) ?_
+    intro vb d hg
+    simp only [step, saveAll_eq] at hg
+    (repeat' split at hg) <;> first
+      | exact Or.inl hg
+      | (rcases mdWrite_get?_cases s _ _ res vb d hg with h1 | h1
+         · exact Or.inl h1
+         · exact Or.inr (Or.inr h1))
+  | svStore k res =>
+    refine invLe_frame h (step_offsets s (by rfl)) (step_isOpen s (by rfl)) (step_cfg s (by rfl))
+      (fun _ _ _ hm => step_savers_dumped hm) ?_
+    intro vb d hg
+    cases hk : s.savers.get? k with
+    | none => simp only [step, svStore, hk] at hg; exact Or.inl hg
+    | some pc =>
+      cases pc with
+      | wantLock g' => simp only [step, svStore, hk] at hg; exact Or.inl hg
+      | stored => simp only [step, svStore, hk] at hg; exact Or.inl hg
+      | dumped st dd =>
+        have hmem := AMap.mem_of_get?_eq_some hk
+        simp only [step, svStore_of_dumped res hk] at hg
+        split at hg <;>
+        · rcases mdWrite_get?_cases s st dd res vb d hg with h1 | h1
+          · exact Or.inl h1
+          · exact Or.inr (Or.inl ⟨k, st, dd, hmem, h1⟩)
+  | crash => exact invLe_closed hnd rfl
+  | close =>
+    by_cases hio : s.isOpen = true
+    · exact invLe_closed hnd (by simp [step, closeSession_of_open hio, closedOf])
+    · have : (step s .close).1 = s := by simp [step, closeSession_of_not_open (by simpa using hio)]
+      rw [this]; exact h
+  | «open» =>
+    by_cases hio : s.isOpen = true
+    · have : (step s .open).1 = s := by simp [step, openSession_of_isOpen hio]
+      rw [this]; exact h
+    · have hio' : s.isOpen = false := by simpa using hio
+      cases hl : load (openBase s) with
+      | none => exact invLe_closed hnd (by simp [step, openSession_of_load_none hio' hl, openBase])
+      | some r =>
+        obtain ⟨offs, dirty, any⟩ := r
+        refine invLe_loaded hl ?_ ?_ ?_ ?_ <;> simp [step, openSession_of_load_some hio' hl, openBase]
+  | rebalance lo hi =>
+    simp only [step]
+    rcases rebalanceSession_cases s lo hi with ⟨_, e⟩ | ⟨_, _, _, _, e⟩ | ⟨offs, dirty, any, _, hs, _, hl, e⟩
+    · rw [e]; exact h
+    · have hnd' := hnd
+      simp only [step] at hnd'
+      rw [e] at hnd' ⊢
+      exact invLe_closed hnd' rfl
+    · rw [e]
+      exact invLe_loaded hl rfl rfl rfl (by rw [rebalDone_savers]; exact hs)
 
 theorem scanG_cons_false {bad : St → Gh → Op → Bool} {g : Gh} {s : St} {op : Op} {r : List Op}
     (h : scanG bad g s (op :: r) = false) :
     bad s g op = false ∧ scanG bad (ghStep g s op) (step s op).1 r = false := by
   simpa [scanG] using h
 
-theorem run_inv (s : St) (g : Gh) (ops : List Op) (h : Inv s g)
+theorem run_inv (s : St) (g : Gh) (ops : List Op) (h : Inv s g) (hle : InvLe s)
     (hkf : scanG overtakeAt g s ops = false)
     (hmono : scanG (fun s g op => !monoOk s g op) g s ops = false)
-    (hns : ∀ op ∈ ops, isSetStore op = false) : Inv (run s ops) (ghRun g s ops) := by
+    (hrj : scanG resetJumpAt g s ops = false)
+    (hns : ∀ op ∈ ops, isSetStore op = false) : Inv (run s ops) (ghRun g s ops) ∧ InvLe (run s ops) := by
   induction ops generalizing s g with
-  | nil => exact h
+  | nil => exact ⟨h, hle⟩
   | cons op r ih =>
     obtain ⟨k1, k2⟩ := scanG_cons_false hkf
     obtain ⟨m1, m2⟩ := scanG_cons_false hmono
-    exact ih _ _ (step_inv s g op h k1 (by simpa using m1) (hns op List.mem_cons_self)) k2 m2
+    obtain ⟨j1, j2⟩ := scanG_cons_false hrj
+    have hn := hns op List.mem_cons_self
+    exact ih _ _ (step_inv s g op h hle k1 (by simpa using m1) j1 hn) (step_invLe s op hle hn) k2 m2 j2
       (fun o ho => hns o (List.mem_cons_of_mem _ ho))
 
 theorem inv_fresh (s : St) (h : Fresh s) : Inv s {} := by
-  obtain ⟨h1, h2, h3, h4⟩ := h
+  obtain ⟨h1, h2, h3, h4, _⟩ := h
   refine ⟨?_, ?_, ?_, ?_, ?_, ?_, ?_⟩
   · intro p hp; simp [h3] at hp
   · intro p hp; simp [h3] at hp
@@ -1464,11 +1988,19 @@ theorem inv_fresh (s : St) (h : Fresh s) : Inv s {} := by
   · intro vb d _ ho; simp [h4, AMap.has] at ho
   · intro vb d _ p ⟨hp, _, _⟩; simp [h3] at hp
 
+theorem invLe_fresh (s : St) (h : Fresh s) : InvLe s := by
+  obtain ⟨h1, _, _, _, h5⟩ := h
+  exact invLe_closed (by rw [h1]; exact List.nodup_nil) h5
+
 /-- **C01b_partial**: for every run of a fresh process – all ops, any interleaving
-    over any number of vBuckets, partial stores, crashes, reopenings – in which
+    over any number of vBuckets, partial stores, crashes, reopenings, rebalances (the contexts
+    handed out before stay unsettled across them), transient reopens – in which
     * no absorbed event overtakes an unsettled delivery (`KF.C01_overtake = false`),
-    * the server sends strictly increasing seqnos per vBucket and session, above the
-      requested position (`KF.srvMonotone`), and
+    * the server sends strictly increasing seqnos per vBucket between two stream requests of that
+      vBucket, above the requested position (`KF.srvMonotone`),
+    * no rebalance takes the latest-reset start over a delivered but unsettled event of its new
+      range (`KF.C01_resetJump = false`; hypothesis added with `.rebalance`, needed:
+      `C01b_rebalance_reset_refuted`), and
     * the store is written by the library only,
     at EVERY step of the run (every prefix `pre`), for every vBucket:
     the stored checkpoint and the tracked position are strictly below every
@@ -1476,9 +2008,10 @@ theorem inv_fresh (s : St) (h : Fresh s) : Inv s {} := by
     (cumulative reading: unsettled = no acknowledgement at or above its seqno in
     this session).  Hence a restart at that point requests the stream from before
     every such event.  After a crash / reopen the statement speaks about the new
-    session (positions reload from the store). -/
+    session (positions reload from the store); a rebalance reloads them inside the session. -/
 theorem C01b_partial (s0 : St) (ops : List Op) (hf : Fresh s0) (hkf : KF.C01_overtake s0 ops = false)
-    (hmono : KF.srvMonotone s0 ops = true) (hns : ∀ op ∈ ops, isSetStore op = false)
+    (hmono : KF.srvMonotone s0 ops = true) (hrj : KF.C01_resetJump s0 ops = false)
+    (hns : ∀ op ∈ ops, isSetStore op = false)
     (pre post : List Op) (hsp : ops = pre ++ post) :
     (∀ vb d, (run s0 pre).store.get? vb = some d → Below (run s0 pre) (ghRun {} s0 pre).ak vb d.seq) ∧
     (∀ vb o, (vb, o) ∈ (run s0 pre).offsets → Below (run s0 pre) (ghRun {} s0 pre).ak vb o.seq) ∧
@@ -1489,14 +2022,16 @@ theorem C01b_partial (s0 : St) (ops : List Op) (hf : Fresh s0) (hkf : KF.C01_ove
   have hmono' : scanG (fun s g op => !monoOk s g op) {} s0 pre = false := by
     apply scanG_append_false (b := post)
     simpa [KF.srvMonotone] using hmono
-  have := run_inv s0 {} pre (inv_fresh s0 hf) hkf' hmono'
-    (fun o ho => hns o (List.mem_append_left _ ho))
+  have hrj' : scanG resetJumpAt {} s0 pre = false := scanG_append_false hrj
+  have := (run_inv s0 {} pre (inv_fresh s0 hf) (invLe_fresh s0 hf) hkf' hmono' hrj'
+    (fun o ho => hns o (List.mem_append_left _ ho))).1
   exact ⟨this.storeBelow, this.offBelow, fun k st dd hk vb d hd => (this.dump k st dd hk vb d hd).2⟩
 
 /-- the final-state form: under the same hypotheses the full clause holds -/
 theorem C01b_partial_claim (s0 : St) (ops : List Op) (hf : Fresh s0) (hkf : KF.C01_overtake s0 ops = false)
-    (hmono : KF.srvMonotone s0 ops = true) (hns : ∀ op ∈ ops, isSetStore op = false) : C01b_claim s0 ops :=
-  (C01b_partial s0 ops hf hkf hmono hns ops [] (by simp)).1
+    (hmono : KF.srvMonotone s0 ops = true) (hrj : KF.C01_resetJump s0 ops = false)
+    (hns : ∀ op ∈ ops, isSetStore op = false) : C01b_claim s0 ops :=
+  (C01b_partial s0 ops hf hkf hmono hrj hns ops [] (by simp)).1
 
 /-- the unsettled notion is the intended one: a delivered event of the current
     session with no acknowledgement of its own or of a later event of its vBucket
@@ -1506,19 +2041,47 @@ theorem unsettled_of_no_ack {s : St} {ak : AMap Nat} {p : Pending} (hm : p ∈ s
   refine ⟨hm, hs, ?_⟩
   simp [settled, h]
 
+/-- witness for the hypothesis on rebalances: with `resetLatest` and nothing stored, event 1 of
+    vBucket 0 is delivered and never acknowledged; the rebalance loads the latest-reset start
+    (position 5, marked dirty, flag up) and the save stores 5 -/
+def wRJ : List Op :=
+  [.open, .ev 0 (.marker 1 9), .ev 0 (muEv 1), .setHigh 0 5, .rebalance 0 0, .save .ok]
+def sRJ : St := { cfg := { resetLatest := true } }
+
+/-- **the rebalance hypothesis of `C01b_partial` is needed**: no absorbed event, the server keeps its
+    contract, the library alone writes the store – and yet the stored checkpoint of vBucket 0 (5)
+    is beyond the delivered, never acknowledged event 1 -/
+theorem C01b_rebalance_reset_refuted :
+    Fresh sRJ ∧ KF.C01_overtake sRJ wRJ = false ∧ KF.srvMonotone sRJ wRJ = true ∧
+    (∀ op ∈ wRJ, isSetStore op = false) ∧ KF.C01_resetJump sRJ wRJ = true ∧
+    (run sRJ wRJ).ctxs[0]? = some ⟨1, 0, ⟨0, 1, 1, 9, maxU64⟩⟩ ∧ (run sRJ wRJ).sess = 1 ∧
+    (ghRun {} sRJ wRJ).ak = [] ∧ (run sRJ wRJ).store.get? 0 = some ⟨0, 5, 5, 5⟩ ∧
+    ¬ C01b_claim sRJ wRJ := by
+  refine ⟨⟨rfl, rfl, rfl, rfl, rfl⟩, by decide, by decide, by decide, by decide, by decide, by decide, by decide,
+    by decide, ?_⟩
+  intro h
+  have := h 0 ⟨0, 5, 5, 5⟩ (by decide) ⟨1, 0, ⟨0, 1, 1, 9, maxU64⟩⟩ ⟨by decide, by decide, by decide⟩ rfl
+  simp at this
+
 /-- non-vacuity: deliveries on two vBuckets, a batched (cumulative) acknowledgement,
     absorbed events only when everything delivered is settled, a partial save, a
-    crash and a reopening; the hypotheses hold and the store is not empty -/
+    crash and a reopening; then a rebalance with an unsettled delivery (event 4 of vBucket 0 is
+    sent and delivered again, the earlier context is acknowledged afterwards), a failover and a
+    transient reopen after which the server sends event 5 again; the hypotheses hold and the
+    store is not empty -/
 example :
     let s0 : St := { cfg := { lo := 0, hi := 1 } }
     let ops : List Op := [.setHigh 0 20, .setHigh 1 20, .open, .ev 0 (.marker 1 9), .ev 1 (.marker 1 9),
       .ev 0 (muEv 1), .ev 0 (muEv 2), .ev 1 (muEv 1), .ack 1, .ev 0 (.seqAdv 3), .ack 2,
       .ev 0 (.marker 4 9), .ev 0 (muEv 4), .save (.part [0]), .crash, .open,
-      .ev 0 (.marker 4 9), .ev 0 (muEv 4), .ev 1 (.marker 1 9), .ev 1 (muEv 1), .ack 4, .save .ok]
+      .ev 0 (.marker 4 9), .ev 0 (muEv 4), .ev 1 (.marker 1 9), .ev 1 (muEv 1), .ack 4, .save .ok,
+      .ev 0 (muEv 5), .rebalance 0 0, .ev 0 (.marker 5 9), .ev 0 (muEv 5), .ack 6, .setFlog 0 7, .reopen 0,
+      .ev 0 (.marker 5 9), .ev 0 (muEv 6), .ack 8, .save .ok]
     Fresh s0 ∧ KF.C01_overtake s0 ops = false ∧ KF.srvMonotone s0 ops = true ∧
+    KF.C01_resetJump s0 ops = false ∧
     (∀ op ∈ ops, isSetStore op = false) ∧
-    (run s0 ops).store = [(0, ⟨0, 4, 4, 9⟩)] ∧
-    (run s0 ops).ctxs.length = 6 := by
-  refine ⟨⟨rfl, rfl, rfl, rfl⟩, by decide, by decide, by decide, by decide, by decide⟩
+    (run s0 ops).store = [(0, ⟨7, 6, 5, 9⟩)] ∧
+    (run s0 ops).ctxs.length = 9 := by
+  refine ⟨⟨rfl, rfl, rfl, rfl, rfl⟩, by decide, by decide, by decide, by decide, by decide, by decide⟩
 
 end GoDcp.C01
